@@ -1130,6 +1130,27 @@ def check(tier: str, seed: int, t0: float, build: core.BuildStatus) -> int:
                                "broken": "oracle: equal packages whichever of two independent method declarations comes first"})
                 else:
                     oc.traces_validated_against_impl += 1
+    # ---- directed: two enums of the same SHORT name in different namespaces, declared in either order, each used by the query ----
+    for backend in BACKENDS:
+        cname, bank, etype = UNIVERSE[backend][0]
+        e1 = {"metadata_type": "define_enum", "namespace": "FvA.Jet", "name": "Color", "values": ["Red", "Blue"]}
+        e2 = {"metadata_type": "define_enum", "namespace": "FvA.Muon", "name": "Color", "values": ["Green", "Red", "Blue"]}
+        for q in (f'ds.Select(lambda e: e.{cname}("{bank}").Where(lambda j: j.pt() > FvA.Jet.Color.Blue).Select(lambda k: k.eta()))',
+                  f'ds.Select(lambda e: e.{cname}("{bank}").Where(lambda j: j.pt() > FvA.Muon.Color.Blue).Select(lambda k: k.eta()))',
+                  f'ds.Select(lambda e: e.{cname}("{bank}").Where(lambda j: j.pt() > FvA.Jet.Color.Blue).Where(lambda m: m.eta() > FvA.Muon.Color.Blue).Count())'):
+            tree = ast.parse(q, mode="eval").body
+            a_src = src_of(with_metadata(tree, [e1, e2], [0, 0]))
+            b_src = src_of(with_metadata(tree, [e2, e1], [0, 0]))
+            c_src = src_of(with_metadata(tree, [e1, e2], [0, 1]))
+            ra, rb, rc = run_query(a_src, backend), run_query(b_src, backend), run_query(c_src, backend)
+            oc.evaluations += 1
+            if ra != rb or ra != rc or ra[0] != "ok":
+                violation("c08:metadata-position", f"two enums named Color in different namespaces: the order / position of their declarations changes the translation "
+                          f"(or the query is refused): {describe(ra, rb) if ra != rb else describe(ra, rc)}; query = {q}",
+                          {"kind": "pair", "variant": "metadata", "backend": backend, "a": a_src, "b": b_src if ra != rb else c_src,
+                           "broken": "oracle: equal packages whichever of two independent enum declarations comes first"})
+            else:
+                oc.traces_validated_against_impl += 1
     # ---- rewriter model vs. the real rewriters ----------------------------------------------------
     rw = {"cases": 0, "agree": 0}
     if model is not None:
